@@ -6,7 +6,11 @@
                extended / basic / rebuilt offset table), _get_bot, _build_bot,
                _read_eot (length check), read_frame_raw
      frame.py  decode_frame (native branch: bit window for BitsAllocated = 1,
-               otherwise numpy/pydicom little-endian words + unused-bit correction)
+               otherwise numpy/pydicom little-endian words + unused-bit correction;
+               PlanarConfiguration handed to the one-frame dataset -> deplane)
+     pydicom   Dataset.pixel_array cache validation (convert_pixel_data / _pixel_id) and its
+               reset by Dataset.__setitem__ on PixelData, as seen by get_stored_frame(s):
+               img / pixel_array / st_one / st_batch / step / run_ops (end of this file)
    Bytes and pixel values are Z; byte strings are [list Z] with entries 0..255.
    Encapsulated pixel data is modelled at ITEM level: the stream after the
    Basic Offset Table item is a list of items (payload length, "payload starts
